@@ -8,9 +8,13 @@ from harness.fan import tree_ir
 
 
 class TreeTrace:
+    """Collects grammars and trees; judge() writes them as Trace_Tree event files - split into several files that are
+    validated by TLC processes running side by side when the trace is large - and merges the verdicts."""
+
     def __init__(self, name):
-        self.path = os.path.join(subdir("treetrace"), name + ".ndjson")
-        self.fh = open(self.path, "w")
+        self.name = name
+        self.glines = {}
+        self.tlines = []
         self.n = 0
         self.ntrees = 0
         self.meta = {}
@@ -18,8 +22,9 @@ class TreeTrace:
         self.idx = 0
 
     def grammar(self, gid, g):
-        self.fh.write(json.dumps({"ev": "G", "gid": gid, "g": {"start": g["start"], "rules": g["rules"]}}) + "\n")
-        self.n += 1
+        if gid not in self.glines:
+            self.n += 1
+        self.glines[gid] = json.dumps({"ev": "G", "gid": gid, "g": {"start": g["start"], "rules": g["rules"]}})
 
     def new_trace(self, info):
         self.tid += 1
@@ -29,8 +34,8 @@ class TreeTrace:
 
     def tree(self, gid, start, tree, label, input_kind="none", input_val=()):
         ir = tree if isinstance(tree, dict) else tree_ir(tree)
-        self.fh.write(json.dumps({"ev": "T", "gid": gid, "tid": self.tid, "idx": self.idx, "start": start,
-                                  "tree": ir, "input": {"kind": input_kind, "val": list(input_val)}}) + "\n")
+        self.tlines.append((self.tid, gid, json.dumps({"ev": "T", "gid": gid, "tid": self.tid, "idx": self.idx, "start": start,
+                                                       "tree": ir, "input": {"kind": input_kind, "val": list(input_val)}})))
         self.meta[self.tid]["trees"][self.idx] = (label, ir)
         self.idx += 1
         self.n += 1
@@ -38,17 +43,41 @@ class TreeTrace:
 
     def judge(self, rep, label="Trace_Tree"):
         """Runs TLC; returns list of (tid, idx, clause, label, tree-ir, info)."""
-        self.fh.close()
-        r = run_tlc("Trace_Tree", "Trace_Tree", workers=1, env={"TRACE_FILE": self.path}, timeout=3000, heap="8g")
-        rep.tlc(r, label)
-        cons = [l for l in r.out.splitlines() if l.startswith('<<"CONSUMED"')]
-        if not cons or ("%d," % self.n) not in cons[0]:
-            raise common.Machinery("%s did not consume the whole trace (%d events): %s" % (label, self.n, cons))
-        bad = r.printed("BAD")
+        from concurrent.futures import ThreadPoolExecutor
+        nshards = max(1, min(8, self.ntrees // 4000))
+        shards = []
+        for i in range(nshards):
+            ts = [t for t in self.tlines if t[0] % nshards == i]
+            if not ts and nshards > 1:
+                continue
+            path = os.path.join(subdir("treetrace"), "%s.%d.ndjson" % (self.name, i))
+            gids = []
+            for _tid, gid, _l in ts:
+                if gid not in gids:
+                    gids.append(gid)
+            if nshards == 1:
+                gids = list(self.glines)
+            with open(path, "w") as fh:
+                for gid in gids:
+                    fh.write(self.glines[gid] + "\n")
+                for _tid, _gid, line in ts:
+                    fh.write(line + "\n")
+            shards.append((path, len(gids) + len(ts)))
+
+        def one(sh):
+            return run_tlc("Trace_Tree", "Trace_Tree", workers=1, env={"TRACE_FILE": sh[0]}, timeout=3000, heap="8g" if nshards == 1 else "4g")
+        with ThreadPoolExecutor(len(shards)) as ex:
+            results = list(ex.map(one, shards))
         out = []
-        for b in (bad[0] if bad else []):
-            lab, ir = self.meta[b["tid"]]["trees"][b["idx"]]
-            out.append((b["tid"], b["idx"], b["clause"], lab, ir, self.meta[b["tid"]]["info"]))
+        for (path, want), r in zip(shards, results):
+            rep.tlc(r, label if nshards == 1 else "%s[%d events]" % (label, want))
+            cons = [l for l in r.out.splitlines() if l.startswith('<<"CONSUMED"')]
+            if not cons or ("%d," % want) not in cons[0]:
+                raise common.Machinery("%s did not consume the whole trace (%d events): %s" % (label, want, cons))
+            bad = r.printed("BAD")
+            for b in (bad[0] if bad else []):
+                lab, ir = self.meta[b["tid"]]["trees"][b["idx"]]
+                out.append((b["tid"], b["idx"], b["clause"], lab, ir, self.meta[b["tid"]]["info"]))
         return out
 
 
